@@ -226,9 +226,19 @@ CLAIMED["C17"] = {
     "design_ref": "DESIGN.md §9 C17, §11.9",
 }
 
+CLAIMED["C09"] = {
+    "category": "exploration",
+    "text": "BOUNDED only (labelled; nothing here is counted as proved): the operator table is data handed to pest's PrattParser and the tokens come from macro-generated grammar code; neither verifier takes that code, and assuming the library "
+            "implements precedence climbing would assume the property. The statement is executed instead: about 900 generated expression texts (arithmetic with implicit multiplications 2x, 2(x+1), (a)(b)c; logic with keywords and the aliases && || ! -> <->, "
+            "identifiers that start with a keyword; 2 to 5 operands, nesting <= 2, one optional unary operator per operand) are compiled by the real parser and read by an independent precedence-climbing reader written in the check from the documented table; "
+            "both are evaluated (4 assignments for arithmetic, all 16 for logic) and must agree.",
+    "note": "Bound: the generator in units/U09.prec/witness.rs, seeded by VERIF_SEED. Trusted: the reference reader's reading of the documented table; the transformer between parse tree and model expression (it is part of what is checked).",
+    "technique": "bounded executable differential check of the real parser against an independent precedence-climbing reader (stand-in where no contract can reach; labelled bounded)",
+    "design_ref": "DESIGN.md §9 C09, §11.9",
+}
+
 NOT_APPLICABLE = {
     "C03": "quantifies over source texts through the pest-generated parser and an external MILP search; every in-repo step that can carry a contract is covered by C01/C02/C04/C05; no further function exists to attach an obligation to",
     "C06": "relates two parses; the expansion engine works on parser IL with dyn Fn callbacks, scope frames and evaluated iterables that Verus does not accept and Kani cannot execute; its specification would be a formal semantics of the whole language",
-    "C09": "the operator table is data handed to pest's PrattParser and tokens come from macro-generated grammar code; neither verifier can take that code, and assuming the library implements precedence climbing would assume the property",
 
 }
